@@ -353,16 +353,32 @@ class Exec:
         raise OutOfSubset(f"binary operator {type(op).__name__}")
 
     def unify_seq(self, a, b):
-        sa = self.to_sv(a) if not (isinstance(a, Ref) and self.p.cell(a).items == []) and a != [] and a != () else None
-        sb = self.to_sv(b) if not (isinstance(b, Ref) and self.p.cell(b).items == []) and b != [] and b != () else None
-        if sa is None and sb is None:
+        ea, eb = self.is_empty_display(a), self.is_empty_display(b)
+        if ea and eb:
             raise OutOfSubset("concatenation of two empty untyped lists")
+        sa = sb = None
+        if isinstance(a, SV):
+            sa = a
+        if isinstance(b, SV):
+            sb = b
+        if sa is None and not ea:
+            try:
+                sa = self.to_sv(a, sb.ty if sb is not None and sb.ty.kind in ("seq", "str") else None)
+            except OutOfSubset:
+                if eb or isinstance(b, SV):
+                    raise
+                sb = self.to_sv(b)
+                sa = self.to_sv(a, sb.ty)
+        if sb is None and not eb:
+            sb = self.to_sv(b, sa.ty if sa is not None and sa.ty.kind in ("seq", "str") else None)
         if sa is None:
-            sa = SV(z3.Empty(sb.ty.sort()), sb.ty)
+            sa = SV(z3.Empty(sb.ty.sort()), sb.ty) if ea else self.to_sv(a, sb.ty)
         if sb is None:
             sb = SV(z3.Empty(sa.ty.sort()), sa.ty)
         if sa.ty != sb.ty:
-            sb = self.to_sv(b, sa.ty)
+            if {sa.ty.kind, sb.ty.kind} <= {"str", "char"}:
+                return SV(sa.z, STR), SV(sb.z, STR)
+            sb = lift(sb, sa.ty)
         return sa, sb
 
     def e_Compare(self, n, fr):
@@ -531,7 +547,12 @@ class Exec:
         if isinstance(base, PyDict):
             return base.lookup(self, idx, node)
         if isinstance(base, dict):
-            return self.w.wrap_global(base[idx])
+            if not isinstance(idx, (SV, Ref)):
+                return self.w.wrap_global(base[idx])
+            for k in base:  # symbolic key: one fork per key of the (module constant) dict
+                if self.branch(self.compare(ast.Eq(), idx, k, node)):
+                    return self.w.wrap_global(base[k])
+            raise _Raise("KeyError")
         if isinstance(base, (str, tuple)) and isinstance(idx, int):
             return base[idx]
         if isinstance(base, View):
